@@ -52,6 +52,18 @@ pub struct Family {
     /// (Six similar strings in _meta_tables.name compress, and compacting such a column is the
     /// open finding F28: these families run with factors under which _meta_tables is not compacted.)
     pub odd_tables: bool,
+    /// odd table names that do not resemble each other (so that _meta_tables.name does not compress
+    /// and the table can be compacted without meeting F28), io_threads = 4
+    pub odd_tables_compacting: bool,
+    /// a column is often all-NULL in the batch that mentions it first (ColumnData::Empty)
+    pub null_first: bool,
+    /// eight columns whose names alternate in case (a0 B1 c2 D3 ...): byte order and case-insensitive
+    /// order differ; with max_partition_size_bytes of a few columns (8..30 bytes: a column of a
+    /// few small integers has a heap size of 3..12 bytes) every partition is several multi-column files
+    pub mixed_case: bool,
+    /// flushed partitions, then - with no query in between, so that nothing is resident - restart,
+    /// a batch without one of the columns, a compacting flush; content is read only afterwards
+    pub blind: bool,
     /// small max_wal_files / max_wal_size_bytes so that background flushes fire
     pub tiny_wal: bool,
     pub max_ops: usize,
@@ -74,6 +86,8 @@ fn long_name(compressible: bool) -> String {
 }
 
 /// (name, kind) kind: 0 int, 1 string, 2 float
+const MIXED_CASE: [&str; 8] = ["a0", "B1", "c2", "D3", "e4", "F5", "g6", "H7"];
+
 fn pool(odd: bool, compressible: bool) -> Vec<(String, u8)> {
     let mut v = vec![("a".to_string(), 0u8), ("b".to_string(), 1), ("c".to_string(), 2), ("d".to_string(), 0)];
     if odd {
@@ -130,6 +144,8 @@ pub fn odd_table_groups() -> Vec<Vec<String>> {
 pub struct HistGen<'f> {
     pub fam: &'f Family,
     pub tables: Vec<String>,
+    /// (table, column) pairs some batch mentioned already
+    pub seen: std::collections::BTreeSet<(String, String)>,
     pub next_id: BTreeMap<String, i64>,
     /// current column set per table (Fixed / VaryAcross)
     pub cur_cols: BTreeMap<String, Vec<(String, u8)>>,
@@ -139,6 +155,16 @@ pub struct HistGen<'f> {
 
 impl<'f> HistGen<'f> {
     fn pick_cols(&self, r: &mut Rng) -> Vec<(String, u8)> {
+        if self.fam.mixed_case {
+            // most of the eight, so that files hold several columns of both cases
+            let mut v = vec![];
+            for n in MIXED_CASE.iter() {
+                if r.chance(5, 6) {
+                    v.push((n.to_string(), if r.chance(1, 4) { 2u8 } else { 0u8 }));
+                }
+            }
+            return v;
+        }
         let p = pool(self.fam.odd_names, self.fam.compressible);
         let strings = self.fam.strings;
         let mut v: Vec<(String, u8)> =
@@ -180,7 +206,8 @@ impl<'f> HistGen<'f> {
             l((0..nrows).map(|i| l(vec![a("i"), Sx::int(start + i as i64)])).collect()),
         ])];
         for (c, k) in cols {
-            let all_null = self.fam.nulls && r.chance(1, 8);
+            let first_time = self.fam.null_first && self.seen.insert((t.to_string(), c.clone()));
+            let all_null = (self.fam.nulls && r.chance(1, 8)) || (first_time && r.chance(1, 2));
             let cells = (0..nrows)
                 .map(|i| {
                     if all_null || (self.fam.nulls && r.chance(1, 3)) {
@@ -213,7 +240,11 @@ impl<'f> HistGen<'f> {
 
 pub fn gen_history(r: &mut Rng, fam: &Family) -> (String, Sx) {
     let mut factor = *r.pick(fam.factors);
-    let tables: Vec<String> = if fam.odd_tables {
+    let tables: Vec<String> = if fam.odd_tables_compacting {
+        let all = ["Run-7/Eval.Loss", "x y", "Q", ".Hidden", "caf\u{e9}", "-k"];
+        let i = r.below(all.len() as u64) as usize;
+        vec![all[i].to_string(), all[(i + 1) % all.len()].to_string(), all[(i + 3) % all.len()].to_string()]
+    } else if fam.odd_tables {
         let gs = odd_table_groups();
         gs[r.below(gs.len() as u64) as usize].clone()
     } else {
@@ -225,31 +256,62 @@ pub fn gen_history(r: &mut Rng, fam: &Family) -> (String, Sx) {
         factor = 999;
     }
     let (max_files, max_size) = if fam.tiny_wal {
-        (*r.pick(&[0u64, 1, 2, 1000]), *r.pick(&[1u64, 300, 700, 64 << 20]))
+        (*r.pick(&[0u64, 1, 2, 1000]), *r.pick(&[0u64, 1, 300, 700, 64 << 20]))
     } else {
         (1000, 64 << 20)
     };
     let bg = max_files < 1000 || max_size < (64 << 20);
-    let max_part = *r.pick(&[8u64 << 20, 8 << 20, 1, 40]);
-    let io = *r.pick(&[1u64, 4]);
+    // every fourth history with a tiny log: the limit is exactly the size of the first segment
+    let exact_limit = fam.tiny_wal && r.chance(1, 4);
+    let max_part = if fam.mixed_case { *r.pick(&[8u64, 12, 20, 30]) } else { *r.pick(&[8u64 << 20, 8 << 20, 1, 40]) };
+    let io = if fam.odd_tables_compacting { 4 } else { *r.pick(&[1u64, 4]) };
     let ft = *r.pick(&[1u64, 4]);
     let opts = vec![
         a("opts"),
         l(vec![a("combine"), Sx::int(factor)]),
         l(vec![a("max_wal_files"), Sx::int(max_files)]),
-        l(vec![a("max_wal_size"), Sx::int(max_size)]),
+        if exact_limit { l(vec![a("max_wal_size"), a("first-segment")]) } else { l(vec![a("max_wal_size"), Sx::int(max_size)]) },
         l(vec![a("max_part_bytes"), Sx::int(max_part)]),
         l(vec![a("io_threads"), Sx::int(io)]),
         l(vec![a("flush_threads"), Sx::int(ft)]),
     ];
-    let mut g = HistGen { fam, tables, next_id: BTreeMap::new(), cur_cols: BTreeMap::new(), dirty: BTreeMap::new() };
+    let mut g = HistGen { fam, tables, seen: Default::default(), next_id: BTreeMap::new(), cur_cols: BTreeMap::new(), dirty: BTreeMap::new() };
+    if fam.blind {
+        // one table, columns a b (and sometimes c); the batch after the restart lacks b
+        let t = g.tables[0].clone();
+        let mut full: Vec<(String, u8)> = vec![("a".into(), 0), ("b".into(), if r.chance(1, 2) { 2 } else { 0 })];
+        if r.chance(1, 2) {
+            full.push(("c".into(), 0));
+        }
+        let without_b: Vec<(String, u8)> = full.iter().filter(|(n, _)| n != "b").cloned().collect();
+        let mut ops = vec![a("ops")];
+        for _ in 0..r.usize(2, 3) {
+            g.cur_cols.insert(t.clone(), full.clone());
+            ops.push(l(vec![a("ingest"), l(vec![g.table_batch(r, &t)])]));
+            ops.push(l(vec![a("flush")]));
+        }
+        ops.push(l(vec![a("blind"), l(vec![a("restart")])]));
+        g.cur_cols.insert(t.clone(), without_b);
+        ops.push(l(vec![a("blind"), l(vec![a("ingest"), l(vec![g.table_batch(r, &t)])])]));
+        ops.push(l(vec![a("blind"), l(vec![a("flush")])]));
+        ops.push(l(vec![a("evict")]));
+        ops.push(l(vec![a("restart")]));
+        let class = format!("{}/f{}/forced/restart", fam.name, factor);
+        return (class, l(vec![l(opts), l(ops)]));
+    }
     let n_ops = r.usize(3, fam.max_ops);
     let mut ops = vec![a("ops")];
     let mut restarts = 0;
     let mut ingests = 0;
     for i in 0..n_ops {
         let k = r.below(100);
-        let op = if i == 0 || (k < 45 && !(fam.races && i == 1)) {
+        let op = if i == 0 && fam.odd_tables_compacting {
+            // every table is created by the first request: _meta_tables then has one partition for
+            // good and is never compacted (its name column compresses: F28), the others are
+            ingests += 1;
+            let ts = g.tables.clone();
+            l(vec![a("ingest"), l(ts.iter().map(|t| g.table_batch(r, t)).collect())])
+        } else if i == 0 || (k < 45 && !(fam.races && i == 1)) {
             ingests += 1;
             l(vec![a("ingest"), g.batch(r)])
         } else if k < 52 && fam.bursts {
@@ -284,7 +346,7 @@ pub fn gen_history(r: &mut Rng, fam: &Family) -> (String, Sx) {
         "{}/f{}/{}{}",
         fam.name,
         factor,
-        if bg { "bg" } else { "forced" },
+        if exact_limit { "bg-exact-limit" } else if bg { "bg" } else { "forced" },
         if restarts > 0 { "/restart" } else { "" }
     );
     (class, l(vec![l(opts), l(ops)]))
